@@ -10,12 +10,15 @@ produced; what is proved here, for all inputs, is
   * the offset checks (`offset_checked`, `jump_back_checked`),
   * the register allocator invariant and limits (`frame_inv`, `frame_limits`,
     `frame_new_wrap_witness`, `frame_new_guarded`).
-Helper lemmas: Lemmas/C05Codec.lean, Lemmas/C05Frame.lean, Lemmas/C05WF.lean.
+  * `compile_wf_partial`: what is proved of DESIGN's `compile_wf` for the C01 compiler core
+    (`Model/Compile.lean`).
+Helper lemmas: Lemmas/C05Codec.lean, C05Frame.lean, C05WF.lean, C05Sweep.lean, C05CompileWF.lean.
 -/
 import KotoVerif.Lemmas.C05Codec
 import KotoVerif.Lemmas.C05Frame
 import KotoVerif.Lemmas.C05WF
 import KotoVerif.Lemmas.C05Sweep
+import KotoVerif.Lemmas.C05CompileWF
 
 namespace KotoVerif.C05
 open KotoVerif.Gen KotoVerif.Bytecode KotoVerif.Frame
@@ -319,5 +322,59 @@ theorem frame_new_guarded (lc : Nat) (args : List Arg) (caps : List Nat) :
 
 /-- the former witness inputs are now compile errors -/
 example : Frame.newGuarded 248 [] (List.range 12) = none ∧ Frame.newGuarded 255 [] [] = none := by decide
+
+/-! ## The compiler core emits well-formed code (`compile_wf`)
+
+`Model/Compile.lean` (C01) models the compiler's result-register protocol for the scalar /
+conditional core and is tied to the real compiler instruction for instruction (harness `c01k2`).
+`Lemmas/C05CompileWF.lean` encodes its flat instruction stream with `Model/Encode.lean`
+(`encodeMain`: `NewFrame registers_used`, the body with instruction skips turned into byte offsets,
+`Return result`). -/
+
+open KotoVerif.Compile in
+/-- **compile_wf_partial**: for *every* expression of the core, compiled as a main block with `Any`:
+every register operand of the emitted stream and the returned register are below the
+`registers_used()` that goes into `NewFrame` (so `wfChunk`'s register check holds), every jump lands on
+the boundary of a later instruction of the stream or on its end, where `Return` follows (its jump
+check), the frame has room for `self` and the locals, and there is no builder / try instruction to
+balance. Not proved: that the executable `wfChunk` evaluates to `true` on `encodeMain …` for all
+expressions — the byte-level assembly (the sweep of the encoded bytes returns this listing; byte
+offsets computed from instruction skips hit the listed pcs; the depth inference `annotate` marks every
+instruction reachable) is only checked on instances, see `compile_wf_instances`, and by the
+translation validation of real chunks. -/
+theorem compile_wf_partial (e : Compile.Expr) (lc : Nat) (code : Compile.Code) (out : Compile.Out)
+    (F' : Compile.Frame) (h : Compile.compile e .any { tb := 1 + lc } = some (code, out, F')) :
+    (∀ f ∈ flatten code, ∀ r ∈ flatRegs f, r < F'.registersUsed)
+    ∧ (∃ r, out.reg = some r ∧ r < F'.registersUsed)
+    ∧ jumpsOk (flatten code) = true
+    ∧ 1 + lc ≤ F'.registersUsed :=
+  compile_wf_flat e lc code out F' h
+
+open KotoVerif.Compile in
+/-- the general register bound behind it: any expression, any result mode, any well-formed frame -/
+theorem compile_regs_bound (e : Compile.Expr) (m : Compile.Mode) (F : Compile.Frame) (code : Compile.Code)
+    (out : Compile.Out) (F' : Compile.Frame) (h : Compile.compile e m F = some (code, out, F'))
+    (hw : Compile.WF F) (ht : F.tc ≤ F.tmax) (hfix : ∀ r, m = .fixed r → r < F.tb + F.tmax) :
+    F'.tb = F.tb ∧ F.tmax ≤ F'.tmax ∧ F'.tc ≤ F'.tmax
+    ∧ ∀ f ∈ flatten code, ∀ r ∈ flatRegs f, r < F'.tb + F'.tmax := by
+  obtain ⟨hm, ht', hcb⟩ := compile_regs e m F code out F' h hw ht hfix
+  exact ⟨hm.tb, hm.tmax, ht', flatten_regs code _ hcb⟩
+
+open KotoVerif.Compile in
+/-- **compile_wf_instances**: on concrete programs of the core (assignment of a pooled integer,
+`if`/`else` with a comparison, `and`, negation; compound assignment, a chained comparison, `or`,
+`if` without `else`) the whole pipeline `compile → flatten → encodeMain → wfChunk` evaluates to
+`true` in the kernel. `x0 = 300; if x0 < 5 then x0 and true else -x0` encodes to the bytes the real
+compiler emits for it (checked against `koto -i`), up to the index of the constant 300. -/
+theorem compile_wf_instances :
+    (compileMain (fun _ => 0)
+      (.seq (.assign 0 (.int 300))
+        (.ite (.cmp .lt (.var 0) (.int 5)) (.and (.var 0) (.bool true)) (.un .neg (.var 0)))) 1).any
+      (fun bs => wfChunk bs [.int]) = true
+    ∧ (compileMain (fun _ => 0)
+      (.seq (.assign 0 (.int (-7)))
+        (.seq (.compound .add 0 (.bin .mul (.var 0) (.int 2)))
+          (.or (.chain3 .lt .le (.int 1) (.var 0) (.int 9)) (.ifThen (.var 0) (.assign 1 .null))))) 2).any
+      (fun bs => wfChunk bs [.int]) = true := by decide
 
 end KotoVerif.C05
